@@ -9,7 +9,9 @@ THEOREMS = ['range_loop_is_python_slice', 'range_is_progression', 'range_never_o
             'getitem_refines_spec_partial', 'getitem_never_out_of_fuel', 'getitem_fuel_independent',
             'getitem_fuel_enough_without_ellipsis', 'getitem_fuel_enough_shallow', 'getitem_refines_spec_norecords',
             'field_projection_refines', 'fields_projection_refines', 'field_commutes_with_positional',
-            'getitem_array_alone']
+            'getitem_array_alone',
+            # n-d integer arrays, index arrays with missing values, jagged indexes (Ops_GetitemAdv.v)
+            'missing_index_none_exactly', 'missing_index_is_integer_selection', 'missing_index_out_of_range_errors', 'jagged_level_by_level', 'jagged_lengths', 'jagged_members', 'jagged_out_of_range_errors', 'jagged_length_mismatch_errors', 'nd_array_is_flat_then_reshape', 'nd_array_alone', 'nd_array_shape', 'nd_array_out_of_range_errors', 'boolean_array_is_nonzero', 'mask_is_true_positions']
 RULE = ('value-first random layouts x slice tuples of length 0-4 over {integer, range (bounds in [-len-2, len+2] or None, '
         'steps +-1..3), ellipsis, newaxis, 1-d integer arrays (boolean arrays as nonzero), field, fields}, incl. '
         'out-of-range indexes; non-trivial = slice has >= 1 dimension-consuming item and the input has >= 1 non-empty '
